@@ -12,6 +12,8 @@ pub trait GroupApi: Copy + Send + 'static {
     fn neutral() -> Self;
     fn base() -> Self;
     fn decode(b: &[u8]) -> Option<Self>;
+    /// status word of the in-place decoder
+    fn set_decode_status(b: &[u8]) -> u32;
     fn encode(&self) -> Vec<u8>;
     fn encode_c(&self) -> Option<Vec<u8>> { None }
     fn add(a: Self, b: Self, v: u32) -> Self;
@@ -60,6 +62,7 @@ macro_rules! group_common {
         fn neutral() -> Self { <$pt>::NEUTRAL }
         fn base() -> Self { <$pt>::BASE }
         fn decode(b: &[u8]) -> Option<Self> { <$pt>::decode(b) }
+        fn set_decode_status(b: &[u8]) -> u32 { let mut p = <$pt>::NEUTRAL; p.set_decode(b) }
         fn add(a: Self, b: Self, v: u32) -> Self {
             match v & 3 { 0 => a + b, 1 => &a + &b, 2 => a + &b, _ => { let mut r = a; r += b; r } }
         }
@@ -421,7 +424,9 @@ impl<'a, G: GroupApi> Mach<'a, G> {
     }
     fn decode(&mut self, dst: usize, b: &[u8]) -> bool {
         let bb = b.to_vec();
+        let b2 = b.to_vec();
         let e = Ev::new("decode").b("in", b);
+        let e = match guarded(move || G::set_decode_status(&b2)) { Ok(w) => e.st("st", w), Err(m) => e.s("stpanic", &m) };
         match guarded(move || G::decode(&bb)) {
             Ok(Some(p)) => self.put(dst, e.t("some", true), Ok(p)),
             Ok(None) => { self.tr.emit(e.t("some", false).n("dst", dst as i64)); true }
@@ -733,8 +738,19 @@ pub fn endo_boundary_scalars<G: GroupApi>(rng: &mut Rng, count: usize) -> Vec<Ve
         if eb <= 66 { continue; }
         let m = BigUint::from_bytes_le(&rng.bytes(16)) % (&one << (eb - 65)) + 1u32;
         let t = (m << 64) + 1u32 - BigUint::from(rng.below(3) as u32);     // m*2^64 + {1, 0, -1}
-        let k = (&t * &r + &e - 1u32) / &e;                                  // ceil(t*r/e)
-        let k = if rng.chance(1, 4) { k + 1u32 } else { k };
+        let k = if rng.chance(1, 2) {
+            let k = (&t * &r + &e - 1u32) / &e;                              // ceil(t*r/e): k*e/r just above t
+            if rng.chance(1, 4) { k + 1u32 } else { k }
+        } else {
+            // k*e + (r-1)/2 just above / below t*2^s with 2^s the power of two next to r: the quotient
+            // estimated with 2^s in place of r differs from the true rounded quotient (the +-1 correction applies)
+            let sh = r.bits() as usize - rng.below(2);
+            let num = (&t << sh) + &e;                                        // keep the subtraction positive
+            let half = (&r - 1u32) >> 1;
+            if num <= &half + &e { continue; }
+            let k = (&num - &half - &e + &e - 1u32) / &e;                     // ceil((t*2^s - (r-1)/2)/e)
+            match rng.below(4) { 0 => k + 1u32, 1 => if k > one { k - 1u32 } else { k }, _ => k }
+        };
         out.push(to_le(&(k % &r), G::SC_LEN));
     }
     out
